@@ -22,6 +22,7 @@ import (
 	"unsafe"
 
 	"github.com/bytedance/sonic/internal/rt"
+	"github.com/bytedance/sonic/internal/verifhook"
 )
 
 /** Program Map **/
@@ -165,13 +166,16 @@ func (self *ProgramCache) Compute(vt *rt.GoType, compute func(*rt.GoType, ...int
 
 	/* double check with write lock held */
 	if val = self.Get(vt); val != nil {
+		verifhook.Point(verifhook.PcacheDoubleCheckHit)
 		return val, nil
 	}
 
 	/* compute the value */
+	verifhook.Point(verifhook.PcacheBeforeCompute)
 	if val, err = compute(vt, ex...); err != nil {
 		return nil, err
 	}
+	verifhook.Point(verifhook.PcacheBeforePublish)
 
 	/* update the RCU cache */
 	atomic.StorePointer(&self.p, unsafe.Pointer((*_ProgramMap)(atomic.LoadPointer(&self.p)).add(vt, val)))
